@@ -102,9 +102,11 @@ def check_removal_effects(cfg, w, rep):
             n_entries += 1
             check_set(cfg, w, fw, rep, lf, TOMBSTONE_MAY, TOMBSTONE_MUST, "key removal", want_key=True)
             check_tombstone_value(cfg, w, rep, lf)
+            check_key_removal_always_acts(cfg, w, rep, lf)
         elif HASH_REMOVAL.match(p):
             n_entries += 1
             check_set(cfg, w, fw, rep, lf, HASH_SET, HASH_SET, "content removal", want_sri=True)
+            check_removal_on_every_success_path(cfg, w, rep, lf, "RemoveFile", "Content", "content file")
         elif CLEAR.match(p):
             n_entries += 1
             check_set(cfg, w, fw, rep, lf, CLEAR_SET, CLEAR_SET, "clear")
@@ -113,6 +115,7 @@ def check_removal_effects(cfg, w, rep):
             n_entries += 1
             check_set(cfg, w, fw, rep, lf, TOMBSTONE_MAY | FULL_MAY, TOMBSTONE_MUST | FULL_MAY, "RemoveOpts removal", want_key=True)
             check_remove_fully(cfg, w, fw, rep, lf)
+            check_key_removal_always_acts(cfg, w, rep, lf)
     rep.floor("removal_entry_points", n_entries, 12 if is_async else 6, cfg)
 
 
@@ -348,3 +351,58 @@ def check_clear_loop(cfg, w, rep, lf):
             elif not skipped:
                 rep.violation("clear-early-exit:%s" % key, "`%s`: the loop over the cache's children can stop before the directory is exhausted" % short(lf.path),
                               loc=e.loc(), config=cfg, rule="clear-all-children")
+
+
+def check_key_removal_always_acts(cfg, w, rep, lf):
+    """A key removal that reports success has appended its tombstone (or, for a full removal, unlinked the bucket): no success
+    return of the entry point is reachable without passing one of those steps — no "the key is absent anyway" fast path (the
+    absence may rest on a single earlier record, and a second removal must be as durable as the first)."""
+    prog = w.prog
+    body = lf.body
+    key = fn_key(lf)
+    acts = set()
+    for b, blk, t, g in prog.local_calls(lf):
+        if b is body and (g.path in w.roles.index_inserts or any(h.path in w.roles.index_inserts for h in w.reach_fns(g))):
+            acts.add(blk.i)
+    for e in w.own_effects(lf):
+        if e.body is body and e.kind == "RemoveFile" and (e.classes.get("path") or ("?",))[0] == "Bucket":
+            acts.add(e.blk)
+    if not acts:
+        return
+    succ = [rd for rd in ret_defs(prog, body) if rd.cls in ("success", "unknown", "delegated") and rd.blk not in acts]
+    reach = prog.cfg(body).reachable(0, cut_nodes=acts)
+    bad = [rd for rd in succ if rd.blk in reach]
+    if bad:
+        rep.violation("removal-noop:%s" % key,
+                      "key removal `%s` can report success without appending a tombstone or unlinking the bucket (return at %s)" % (
+                          short(lf.path), blk_loc(body, bad[0].blk)), loc=blk_loc(body, bad[0].blk), config=cfg, rule="lower-bound")
+    else:
+        rep.ob(cfg, "lower-bound", key + ".always-acts", "every success return of `%s` passes the tombstone append / bucket removal" % short(lf.path))
+
+
+def check_removal_on_every_success_path(cfg, w, rep, lf, kind, shape_, what):
+    """The removal is not only *reachable* from the entry point: in the function that performs it, no success return can be
+    reached without passing it (no early `return Ok(())` when some probe says there is nothing to do — a dangling link_to
+    symlink, for one, is "not there" for exists() and still occupies the address)."""
+    prog = w.prog
+    key = fn_key(lf)
+    owners = {}
+    for e in w.reach_effects(lf):
+        if e.kind == kind and (e.classes.get("path") or ("?",))[0] in (shape_, "Param"):
+            owners.setdefault(prog.owner_fn(e.body).path, []).append(e)
+    for fp, effs in sorted(owners.items()):
+        f = prog.fns[fp]
+        body = f.body
+        blks = {e.blk for e in effs if e.body is body}
+        if not blks:
+            continue
+        succ = [rd for rd in ret_defs(prog, body) if rd.cls in ("success", "unknown", "delegated")]
+        reach = prog.cfg(body).reachable(0, cut_nodes=blks)
+        bad = [rd for rd in succ if rd.blk in reach]
+        if bad:
+            rep.violation("removal-skipped:%s:%s" % (key, short(fp)),
+                          "`%s` (behind `%s`) can report success without having removed the %s (return at %s): what was named would "
+                          "still be there" % (short(fp), short(lf.path), what, blk_loc(body, bad[0].blk)), loc=blk_loc(body, bad[0].blk),
+                          config=cfg, rule="lower-bound")
+        else:
+            rep.ob(cfg, "lower-bound", "%s.every-path:%s" % (key, short(fp)), "every success return of `%s` passes the removal of the %s" % (short(fp), what))
